@@ -26,7 +26,7 @@ Proof.
   { destruct r1; cbn; auto. rewrite (bind_E _ _ _ _ _ E1) in H. inversion H; subst. exact OK. }
   assert (Rxc : reach h x c) by (eapply reach_child; eauto).
   destruct (setslice_inv h r x n None None None (children nc) I Rx G (or_introl eq_refl)) with (h' := h1) (res := r1)
-    as (I1 & -> & Rx1 & _ & new & c' & Gx1 & _ & _ & _ & _ & OUTc); auto.
+    as (I1 & -> & Rx1 & _ & new & c' & Gx1 & _ & _ & F1 & K1 & OUTc); auto.
   - eapply (children_NoDup _ _ _ I); eauto.
   - intros g Hg. apply (LI_sub h r _ g (InvExc_LI _ _ _ I)). eapply reach_step; eauto.
   - intros g y Hg Rg.
@@ -36,14 +36,73 @@ Proof.
     split; auto. intros Nyg. split; [auto|]. rewrite Cn. intros [E|[]]. congruence.
   - intros g Hg _. eapply reach_trans; [exact Rxc|eapply reach_child; eauto].
   - rewrite (bind_R _ _ _ _ _ E1) in H.
+    (* round 3: the merged child is emptied (Node.__setitem__(child, slice(None), ())): only the unreachable husk changes *)
+    assert (Ncx : c <> x) by (intros ->; eapply (rp_x_not_own_child h r x n I Rx G); eauto).
+    destruct (K1 c nc Ncx Gc) as (nc1 & Gc1 & _ & _ & _ & Cc1).
+    assert (Enew : new = children nc) by (apply F1; split; reflexivity).
+    assert (EV : slice_eval_post h1 c nc1 None None None []).
+    { apply setitem_simple_eval; auto.
+      - rewrite Cc1. intros HI. eapply (rp_x_not_own_child h r c nc I Rc Gc); eauto.
+      - rewrite Cc1. eapply (children_NoDup _ _ _ I); eauto.
+      - constructor.
+      - intros i g N. rewrite Cc1 in N. assert (Hg : In g (children nc)) by (eapply nth_error_In; eauto).
+        assert (Rg : reach h r g) by (eapply reach_step; eauto).
+        destruct (live_get _ _ _ I g Rg) as (ng & Gg).
+        assert (Ngx : g <> x).
+        { destruct (child_subtree_sep h r x n c g I Rx G HIn) as (Ngx0 & _); auto. eapply reach_child; eauto. }
+        destruct (K1 g ng Ngx Gg) as (ng1 & Gg1 & _). exists ng1. split; auto.
+      - intros ? []. }
+    destruct EV as (h1' & new' & E1' & Len1' & G1' & LK' & SAME' & POS' & MEM' & VIN' & NDn' & NIn' & FULL' & UNT').
+    assert (new' = []) by (apply FULL'; auto). subst new'.
+    unfold loop_setitem_slice in H. unfold bind at 1 in H. unfold bind at 1 in H. rewrite E1' in H.
+    destruct (invalidate_all c h1') as (h1'', ri) eqn:EI.
+    unfold invalidate_all in EI. rewrite fueled_eq in EI.
+    destruct (invalidate_none_cache_only _ _ _ _ _ EI) as (CO1 & SN1).
+    destruct ri as [[]|ei].
+    2:{ inversion H; subst. destruct OK as (N1 & N2). destruct (invalidate_none_err _ _ _ _ _ EI); congruence. }
+    assert (KEY : children nc <> [] -> ~ reach h1 r c).
+    { intros NE Rc1. destruct (children nc) as [|g gs] eqn:Cg; [congruence|].
+      assert (Hx : nth_error (children (set_cache c' (set_children new n))) 0 = Some g) by (rewrite Enew; destruct n; reflexivity).
+      destruct (inv_links _ _ _ I1 _ _ _ _ Rx1 Gx1 Hx) as (ng & Gg & Pg & _).
+      assert (Hc : nth_error (children nc1) 0 = Some g) by (rewrite Cc1; reflexivity).
+      destruct (inv_links _ _ _ I1 _ _ _ _ Rc1 Gc1 Hc) as (ng' & Gg' & Pg' & _).
+      congruence. }
+    assert (FRAME : forall y, reach h1 r y -> get h1' y = get h1 y).
+    { intros y Ry. destruct (Nat.eq_dec y c) as [->|Nyc].
+      - destruct (children nc) as [|g gs] eqn:Cg.
+        + rewrite G1', Gc1. f_equal. destruct nc1; cbn in *; subst; reflexivity.
+        + exfalso. apply KEY; [discriminate|auto].
+      - destruct (live_get _ _ _ I1 y Ry) as (ny & Gy).
+        apply (UNT' y ny); auto.
+        intros Py. inversion Ry; subst.
+        + destruct (inv_root _ _ _ I1) as (nr & Gr & Pr). congruence.
+        + destruct (lister_unique _ _ _ I1 y p np H0 H1 H2) as (ny' & Gy' & Py').
+          assert (p = c) by congruence. subst p.
+          rewrite Gc1 in H1; inversion H1; subst np. rewrite Cc1 in H2.
+          apply KEY; auto. intros Em; rewrite Em in H2; destruct H2. }
+    assert (I1' : Inv h1' r) by (eapply Inv_frame; [|exact I1]; exact FRAME).
+    assert (Rx1' : reach h1' r x) by (eapply reach_frame; [exact FRAME|exact Rx1]).
+    assert (I1'' : Inv h1'' r).
+    { eapply InvExc_cache_only; [exact CO1|exact I1'|]. intros y Ry _.
+      eapply cvalid_cache_only_same; [exact CO1|apply (inv_cache _ _ _ I1' y Ry (fun F => F))|apply SN1]. }
+    assert (Rx1'' : reach h1'' r x) by (eapply reach_shape; [apply cache_only_shape; exact CO1|exact Rx1']).
     set (f := fun n2 : node => set_meas ms (set_rdf rd (set_wform (wform nc) n2))) in *.
     assert (LSF : forall n0, lshape (f n0) = lshape n0) by (intros []; reflexivity).
-    destruct (modn_fields_inv h1 r x f h' res LSF I1 Rx1 H OK) as (I' & _ & CO).
+    destruct (modn_fields_inv h1'' r x f h' res LSF I1'' Rx1'' H OK) as (I' & _ & CO).
     split; auto. intros y Ry NR. destruct (OUTc y Ry NR) as (n0 & n1 & G0 & G1 & E).
     assert (Nyx : y <> x) by (intros ->; apply NR; constructor).
-    assert (G1' : get (upd h1 x f) y = Some n1) by (rewrite get_upd_other; auto).
-    destruct (cache_only_get _ _ _ _ CO G1') as (n2 & G2 & E2). exists n0, n2. repeat split; auto.
-    rewrite E2, E. destruct n0; reflexivity.
+    assert (G1y : get h1' y = Some n1).
+    { rewrite <- G1. apply (UNT' y n1); auto.
+      - intros ->. apply NR. exact Rxc.
+      - intros Pn1. assert (Pn0 : parent n0 = Some c) by (rewrite E in Pn1; destruct n0; exact Pn1).
+        inversion Ry; subst.
+        + destruct (inv_root _ _ _ I) as (nr & Gr & Pr). congruence.
+        + destruct (lister_unique _ _ _ I y p np H0 H1 H2) as (ny' & Gy' & Py'). assert (p = c) by congruence. subst p.
+          apply NR. eapply reach_trans; [exact Rxc|eapply reach_child; eauto]. }
+    destruct (cache_only_get _ _ _ _ CO1 G1y) as (n1b & G1b & E1b).
+    assert (G1'' : get (upd h1'' x f) y = Some n1b) by (rewrite get_upd_other; auto).
+    destruct (cache_only_get _ _ _ _ CO G1'') as (n2 & G2 & E2). exists n0, n2. repeat split; auto.
+    rewrite E2, E1b, E. destruct n0; reflexivity.
 Qed.
 
 Lemma try_merge_inv vctr h r x h' res :
